@@ -53,6 +53,8 @@ def negate : Node → Node
 def lintNode (t : Ty) : Node → Bool
   | .signed v _ => if v < 0 then decide (v < minOf t) else decide (v > maxOf t)
   | .bit v _ => decide ((v : Int) > maxOf t)
+  -- `is_magnitude_of_minimum`: the least value of a signed type as a negated bit literal (-0x80i8, the i128 minimum)
+  | .negOf (.bit v ty) => if isSigned t && decide ((v : Int) = -(minOf t)) then false else lintNode t (.bit v ty)
   | .negOf n => lintNode t n
 
 /-- wrap an integer into the value range of `t` (two's complement) -/
